@@ -34,7 +34,7 @@ PROPS = {
                      "that a nested block is visited at all (so that in-range statements inside an out-of-range statement are formatted) is not stated: a block may differ in any way under this contract",
                      "the block unit's stub of format_stmt_block (`blocks_only`, uninterpreted there) is not connected to the structural definition of the unit range"],
         assumptions=[]),
-    "C03": dict(units=["tok", "args", "stmt", "table", "expr", "collapse"], bounded=[dict(kind="lib", witnesses="C03_BOUNDED"), dict(kind="corpus", kinds=["comments"]), dict(kind="inject", kinds=["comments"]), dict(kind="range", kinds=["comments"])],
+    "C03": dict(units=["tok", "args", "stmt", "table", "expr", "collapse", "trivia"], bounded=[dict(kind="lib", witnesses="C03_BOUNDED"), dict(kind="corpus", kinds=["comments"]), dict(kind="inject", kinds=["comments"]), dict(kind="range", kinds=["comments"])],
         explanation="token/trivia layer, all real text: format_token keeps a comment's kind, long-bracket level and text (line comments right-trimmed, block comments newline-normalised) and "
                     "creates only whitespace; load_token_trivia (real loop over a Peekable with an inner next(), inductive invariant): the comments of the input trivia come out in order, each only "
                     "rewritten as format_token allows, input whitespace is never copied, and in leading trivia every line comment is followed by a newline; format_token_reference / format_symbol / "
@@ -43,6 +43,8 @@ PROPS = {
                     "take_singleline_trailing_comments / format_field_expression_value hand on the comments of the formatted field value. "
                     "hang_binop (real text, the three fetches and the two appends): the comments in front of the hung operator are its own leading and trailing ones and those in front of the right operand. "
                     "is_if_guard / should_collapse_function_body (real text): a body is only collapsed — its statement's trivia replaced — when contains_comments finds no comment in it (and none behind `)` / in front of `end`). "
+                    "Unit trivia (trivia.rs, real text): update_trivia on a token keeps the token and appends to / replaces / keeps each trivia list exactly as asked (no trivia token — so no comment — is dropped or invented by the updaters); "
+                    "the node-level updaters touch the first / last token only and hand every other part through. "
                     "Bounded (labelled): comment-census witnesses per transplant site and the corpus sweep.",
         not_decided=[
                      "comment transplant sites built from iterator-adapter chains (parenthesis removal, semicolon removal, hang_binop, punctuated lists, table fields): holes; "
@@ -116,7 +118,7 @@ PROPS = {
                      "byte-identical output across carriers is implied only through `same Config`; equality of the library's output for equal Configs is determinism of format_code, not proved"],
         assumptions=["ec4rs Properties::get::<T>() returns the parsed value of key T (wrappers); the string parsers generated by property_choice! are macro output (assumed)"],
         technique="Kani complete enumeration of finite enum domains + Verus contracts on mechanically extracted real functions"),
-    "C07": dict(bounded=[dict(kind="lib", witnesses="C07_BOUNDED"), dict(kind="corpus", kinds=["panic", "error", "timeout"]), dict(kind="inject", kinds=["panic", "error"])], units=["expr", "block", "ctx", "lib", "tok", "cli_io", "diff", "config", "econf", "sort", "args", "table", "stmt", "luau", "collapse", "bodies", "range", "lists", "assign"], kani=["shape"],
+    "C07": dict(bounded=[dict(kind="lib", witnesses="C07_BOUNDED"), dict(kind="corpus", kinds=["panic", "error", "timeout"]), dict(kind="inject", kinds=["panic", "error"])], units=["expr", "block", "ctx", "lib", "tok", "cli_io", "diff", "config", "econf", "sort", "args", "table", "stmt", "luau", "collapse", "bodies", "range", "lists", "assign", "trivia"], kani=["shape"],
         explanation="Totality of the library call, decided per function under contract: inside every function whose real text is verified, each panic!/unreachable!/assert!/expect/unwrap, "
                     "each usize subtraction/addition/multiplication and every recursion or loop (decreases) is an obligation Verus discharges for all inputs (one `.total` obligation per function and "
                     "feature set). format_code returns Err(ParseError) iff the input does not parse and never Ok otherwise; format_ast without verification always returns Ok. "
@@ -136,7 +138,7 @@ PROPS = {
                      "slice::sort_by_key is assumed to be a stable sort by the name (class B wrapper); the leading-trivia swap (comments of the group's first line stay on top) is a hole: comment preservation inside a sorted group is only exercised by the bounded witnesses",
                      "get_expression_kind (what counts as a require / GetService call): string matching, assumed"],
         assumptions=["parsed ASTs carry positions; local names are identifier tokens (parser)"]),
-    "C02": dict(units=["expr", "block", "lib", "tok", "args", "table", "stmt", "luau", "collapse", "bodies", "range", "lists", "assign"], bounded=[dict(kind="lib", witnesses="C02_BOUNDED"), dict(kind="corpus", kinds=["tree", "literals"]), dict(kind="inject", kinds=["tree", "literals"]), dict(kind="range", kinds=["tree"])],
+    "C02": dict(units=["expr", "block", "lib", "tok", "args", "table", "stmt", "luau", "collapse", "bodies", "range", "lists", "assign", "trivia"], bounded=[dict(kind="lib", witnesses="C02_BOUNDED"), dict(kind="corpus", kinds=["tree", "literals"]), dict(kind="inject", kinds=["tree", "literals"]), dict(kind="range", kinds=["tree"])],
         explanation="expression spine: same obligations as C05 (operator tree, leaves, operators) plus line safety (code printed behind a line comment silently disappears: D25, D32, D33); "
                     "statements of a block are the input's, in order (format_block invariant); token layer: names/symbols/numbers/strings per fmt_tt; call sugar keeps the single argument (args_sem); "
                     "table fields keep kind, key and value trees (format_field, format_field_expression_value); a condition loses at most its top-level parentheses; "
@@ -158,8 +160,10 @@ PROPS = {
                      "the census / condition contracts of the unit bodies are stated per node; that format_stmt's stub contract `same statement` follows from them is not proved (the two vocabularies are not connected)",
                      "Luau types: the arms of format_type_info_internal that build arrays, callbacks, generics, tables, typeof and module types are behind one wrapper without contract (the types nested in them are formatted by calls the unit does not follow); "
                      "the list formatter of the types inside parentheses takes a closure that recurses: its result is assumed to have as many types as its input"],
-        assumptions=["leaf formatters return the same leaf (var_id, call_id, table_id, ... postconditions on stubs)"]),
-    "C01": dict(units=["expr", "block", "lib", "tok", "table", "collapse", "bodies"], bounded=[dict(kind="lib", witnesses="C01_BOUNDED"), dict(kind="corpus", kinds=["parse"]), dict(kind="inject", kinds=["parse"]), dict(kind="range", kinds=["parse"])],
+        assumptions=["leaf formatters return the same leaf (var_id, call_id, table_id, ... postconditions on stubs)",
+                     "the trivia updaters (update_leading_trivia / update_trailing_trivia / update_trivia) are assumed interfaces in every unit but `trivia` (prelude/traits.rs); unit trivia verifies the real implementations for TokenReference, the blanket impls, Punctuated, ContainedSpan, BinOp, UnOp, Expression, Prefix, Suffix, Call, Index, MethodCall, FunctionArgs, FunctionBody, Parameter, If, Assignment, Return, Stmt, LastStmt "
+                     "and proves the assumed clauses for TokenReference / ContainedSpan / BinOp from them; the implementations for Var, VarExpression, FunctionCall, TableConstructor, LocalAssignment, FunctionName and the Luau nodes stay assumed"]),
+    "C01": dict(units=["expr", "block", "lib", "tok", "table", "collapse", "bodies", "trivia"], bounded=[dict(kind="lib", witnesses="C01_BOUNDED"), dict(kind="corpus", kinds=["parse"]), dict(kind="inject", kinds=["parse"]), dict(kind="range", kinds=["parse"])],
         explanation="(unit collapse: a function body / if guard is only written on one line — with `end` behind its statement — when no comment is found in it.) necessary conditions, each a mechanism the property names: (1) `- -x` guard on both layout paths, right-open expressions never freed under an operator (C05 contract); "
                     "(2) a long-bracket string is separated from `[` (format_index, format_field, is_brackets_string); (3) the statement separator is kept where the next statement starts with `(` "
                     "(format_block); (4) LINE SAFETY inside expressions (prelude/lines.rs): esafe(r) is a postcondition of format_expression, format_expression_internal, hang_binop_expression, "
